@@ -346,8 +346,8 @@ def step_correspondence(prop, tier, seed):
                 if g["impl"] != exp:
                     mism.append(c)
             stats["phase2"] = len(p2)
-    # smallest first
-    mism.sort(key=lambda c: len(c["input"]))
+    # property-oracle failures (concrete violating inputs) before plain disagreements, smallest first
+    mism.sort(key=lambda c: (c["oracle"] == "ok", len(c["input"])))
     seen_sigs = set()
     for c in mism:
         if c["sig"] in seen_sigs and len(seen_sigs) > 0:
